@@ -64,8 +64,21 @@ def make_game(rnd, decl_env, decl_sys, moore, plus_one, qinit, n_holds, n_goals,
     if rnd.random() < 0.3:
         env_over = ub + pb                      # env reads sys' too
     sys_over = ub + pb if (not moore or rnd.random() < 0.2) else ub + bits([v + "'" for v in decl_sys])
-    aut.action['env'] = rand_pred(env_over, pe)
-    aut.action['sys'] = rand_pred(sys_over, ps)
+    if base == 'plain':
+        aut.action['env'] = rand_pred(env_over, pe)
+        aut.action['sys'] = rand_pred(sys_over, ps)
+    else:
+        # both ways of dict.update at once: a mapping and a keyword
+        e_, s_ = rand_pred(env_over, pe), rand_pred(sys_over, ps)
+        aut.action.update({'env': e_}, sys=s_)
+        try:
+            stored = (aut.action['env'] == e_) and (aut.action['sys'] == s_)
+        except Exception:
+            stored = False
+        if not stored:
+            # reported by the families that use this game; the game is then stored entry by entry
+            aut.ovc_setup_failure = 'action.update({"env": e}, sys=s) does not store both actions as given'
+            aut.action['env'], aut.action['sys'] = e_, s_
     aut.win['<>[]'] = [rand_pred(ub, rnd.choice([0.1, 0.3, 0.6])) for _ in range(n_holds)]
     aut.win['[]<>'] = [rand_pred(ub, rnd.choice([0.3, 0.6, 0.9])) for _ in range(n_goals)]
     if qinit == r'\A \A':
@@ -508,9 +521,19 @@ def resolve_same_automaton(kind, seed, n_pairs, backend='cudd'):
                 qinit = rnd.choice(qinits)
                 fresh = make_game(rnd, de, ds, moore, plus_one, qinit, nh, ng, backend,
                                   base=('plain' if pair_no % 2 == 0 else 'default-' + kind))
+                if getattr(fresh, 'ovc_setup_failure', None) and len(fails) < 5:
+                    fails.append(dict(name='the game solved is the game given: ' + fresh.ovc_setup_failure, seed=seed, pair=pair_no))
                 if aut is None:
                     aut = fresh
                     set_holds, set_goals = list(aut.win['<>[]']), list(aut.win['[]<>'])
+                    if pair_no % 2:
+                        # a copy of the automaton (as made for the opponent's game) is edited in
+                        # place: the original's liveness lists are its own
+                        import copy as _copy
+                        other_ = _copy.copy(aut)
+                        other_.win['<>[]'][:] = [other_.true]
+                        other_.win['[]<>'].append(other_.false)
+                        other_.win['[]<>'][0] = other_.false
                 elif round_ == 1:
                     # same predicates, only the mode attributes change
                     old_mode = (aut.moore, aut.plus_one)
